@@ -3,9 +3,9 @@ BOUNDS = ('view dimensions concrete per query (quick 3x2, 1x1, 0x2; thorough up 
           'layout pairs from {interleaved, planar, x-stepped (flipped), transposed, y-flipped, packed 565, bit-aligned 232/1-bit/2-bit} and all ten algorithms')
 OUTSIDE = 'sizes above 4x3; symbolic row padding (36 s per query: concrete grid instead); copy between different bit-aligned types; user-defined pixel types'
 ASSUMPTIONS = ['navigation view(x,y) is trusted from C02/C03 for the per-pixel oracle', 'buffers are exact-size heap objects: any access outside them is a failed proof obligation']
-ALG = dict(copy=1, fill=2, equal=3, foreach=4, generate=5, transform=6, transform2=7, convert=8, foreach_pos=9, transform_pos=10)
+ALG = dict(fill_other_order=11, copy=1, fill=2, equal=3, foreach=4, generate=5, transform=6, transform2=7, convert=8, foreach_pos=9, transform_pos=10)
 RGB = [('src_rgb8i', 'xf_id'), ('src_rgb8i', 'xf_fliplr'), ('src_rgb8i', 'xf_transposed'), ('src_rgb8p', 'xf_id'), ('src_rgb8p', 'xf_flipud'), ('src_rgb8p', 'xf_rot90cw')]
-SAME = [('src_rgb565', 'xf_id'), ('src_bgr232', 'xf_id'), ('src_gray1', 'xf_id'), ('src_gray2', 'xf_id'), ('src_rgb16i', 'xf_id'), ('src_gray8step', 'xf_id'), ('src_gray1', 'xf_fliplr'), ('src_bgr232', 'xf_transposed')]
+SAME = [('src_rgb16p', 'xf_id'), ('src_rgb565', 'xf_id'), ('src_bgr232', 'xf_id'), ('src_gray1', 'xf_id'), ('src_gray2', 'xf_id'), ('src_rgb16i', 'xf_id'), ('src_gray8step', 'xf_id'), ('src_gray1', 'xf_fliplr'), ('src_bgr232', 'xf_transposed')]
 def queries(tier, seed):
     qs = []
     def add(alg, s, d, dims, pads, t, offs=None, diff=None):
@@ -42,7 +42,7 @@ def queries(tier, seed):
                     else:
                         add('equal', s, d, dims, pads, T_)
     for di, d in enumerate(RGB):
-        for alg in ('fill', 'foreach', 'generate', 'transform', 'transform2', 'foreach_pos', 'transform_pos'):
+        for alg in ('fill', 'fill_other_order', 'foreach', 'generate', 'transform', 'transform2', 'foreach_pos', 'transform_pos'):
             for dims in dt:
                 for pads in pt:
                     qk = pads == (1, 2) and (dims == (3, 2) or (dims == (0, 2) and di % 2 == 0))
@@ -63,6 +63,7 @@ def queries(tier, seed):
                         qk = dims == (3, 2) and pads == (1, 1) and s[1] == 'xf_id' and alg != 'equal' and (not heavy or alg in ('copy', 'fill')) and (d[1] == 'xf_id' or alg == 'copy')
                         if alg == 'equal':
                             add(alg, s, d, dims, pads, Q_ if (dims == (3, 2) and pads == (1, 1) and s[1] == 'xf_id' and d[1] == 'xf_id' and not heavy and 'gray2' not in s[0]) else T_, None, (2, 1))
+                            if 'rgb16p' in s[0] and dims == (3, 2): add(alg, s, d, dims, (0, 0), Q_, (0, 0), (2, 1)); add(alg, s, d, dims, (0, 0), Q_, (0, 0), (2, 0))
                             add(alg, s, d, dims, pads, T_, None, (-1, -1))
                         else:
                             add(alg, s, d, dims, pads, Q_ if qk else T_)
